@@ -863,3 +863,68 @@ def reactant_flux(w, cfg):
     licence = w.Or(*[w.And(w.lt(running[k], 0.), w.ge(running[k], -TOL)) for k in running])      # a round-off negative was zeroed on the way
     w.ensure('flux = conversion x the composition the member acts on', w.Or(w.eq(flux, expected), licence))
     w.canary('canary: flux = conversion x composition + 1', w.eq(flux, expected + 1))
+
+
+# --------------------------------------------------------------------------- 7. calls after a FAILED call (added after seeded change C05_8)
+
+def failed_call_configs(tier):
+    out = []
+    for first in ('force_reaction: phase-less reaction on a two-phase stream', 'call: phase-less reaction on a two-phase stream',
+                  'force_reaction: stream of a package that lacks a product', 'call: infeasible conversion', 'conversion(): phase-less on two-phase'):
+        for obj in ('single', 'parallel', 'series', 'system'):
+            if tier == 'quick' and obj in ('series',) and not first.startswith('force'): continue
+            out.append({'name': f'{first};then={obj}', 'first': first, 'obj': obj})
+    return out
+
+
+@group('C05/gap_B_after_failed_call', configs=failed_call_configs, mode='B',
+       functions=[RXN + 'Reaction.__call__', RXN + 'Reaction.force_reaction', RXN + 'Reaction.conversion', RXN + 'ReactionSystem._reaction',
+                  RXN + 'ParallelReaction._reaction', RXN + 'SeriesReaction._reaction'],
+       notes='bounded: 5 kinds of call that RAISE for an ordinary reason and are handled by the caller (a phase-less reaction handed a two-phase stream, '
+             'a stream whose package lacks a product, an infeasible conversion, through __call__, force_reaction and conversion()) x 4 kinds of object '
+             '(single, parallel, series, system; H2 combustion with 1 kmol/hr O2 for 10 kmol/hr H2 at X = 0.9) used afterwards on a stream, a bare array and '
+             'a stream of another package: a call that returns normally leaves no negative flow and conserves mass; otherwise it raises InfeasibleRegion')
+def after_failed_call(w, cfg):
+    W.reset_caches()
+    th = W.thermo(RPK['RA'])
+    chems = th.chemicals
+    mk = lambda X: tmo.Reaction('2H2 + O2 -> 2H2O', reactant='H2', X=X, chemicals=chems)
+    rxn = mk(0.9)
+    first = cfg['first']
+    two_phase = tmo.MultiStream(None, phases=('g', 'l'), thermo=th)
+    two_phase.imol['g', 'H2'] = 10.; two_phase.imol['g', 'O2'] = 20.; two_phase.imol['l', 'H2O'] = 5.
+    raised = None
+    try:
+        if first.startswith('force_reaction: phase-less'): rxn.force_reaction(two_phase)
+        elif first.startswith('call: phase-less'): rxn(two_phase)
+        elif first.startswith('conversion()'): rxn.conversion(two_phase)
+        elif first.startswith('force_reaction: stream of a package'):
+            small = tmo.Stream(None, thermo=W.thermo(['H2', 'O2']), H2=10., O2=20., phase='g')
+            rxn.force_reaction(small)
+        else:
+            poor = tmo.Stream(None, thermo=th, H2=10., O2=1., phase='g')
+            rxn(poor)
+    except Exception as e:
+        raised = e
+    w.note(first_call=f'{type(raised).__name__}: {raised}'[:120])
+    if raised is None:
+        w.ensure('vacuity guard: the first call of the history raises', False); return
+    target = {'single': lambda: mk(0.9), 'parallel': lambda: tmo.ParallelReaction([mk(0.9)]), 'series': lambda: tmo.SeriesReaction([mk(0.9)]),
+              'system': lambda: tmo.ReactionSystem(mk(0.9))}[cfg['obj']]
+    for fresh_object in (False, True):
+        obj = target() if fresh_object or cfg['obj'] != 'single' else rxn
+        materials = {
+            'stream': tmo.Stream(None, thermo=th, H2=10., O2=1., H2O=3., phase='g'),
+            'stream of a superset package': tmo.Stream(None, thermo=W.thermo(RPK['RC']), H2=10., O2=1., H2O=3., phase='g'),
+        }
+        for mname, s in materials.items():
+            F0 = s.F_mass
+            try:
+                obj(s)
+            except InfeasibleRegion:
+                continue
+            flows = s.mol.to_array()
+            tag = f'{"new" if fresh_object else "same"} object on a {mname}'
+            w.ensure(f'{tag}: a call that returns normally leaves no negative flow (9 kmol/hr H2 need 4.5 kmol/hr O2, 1 is fed)', bool((flows >= 0.).all()), flows=str(flows))
+            w.ensure(f'{tag}: a call that returns normally conserves mass', abs(s.F_mass - F0) <= 1e-9 * F0, before=F0, after=s.F_mass)
+    w.ensure('the history was run', True)
